@@ -199,6 +199,10 @@ def mismatch(obs, exp):
     for k in exp.get("event_has", []):
         if k not in evo:
             out.append(f"event lacks .{k}")
+    if "seen_len" in exp:
+        seen = (evo.get("seen") or {}).get("Array")
+        if seen is not None and len(seen) != exp["seen_len"]:
+            out.append(f"the closure ran {len(seen)} time(s) ({seen}), expected {exp['seen_len']}: iterations continued after the abort")
     for k, val in exp.get("if_compiled_event_eq", {}).items():
         got = evo.get(k)
         if got != val:
